@@ -13,10 +13,16 @@
       file, the sender gives up;
     - the local mechanisms of recovery (stale ACKs inert and free, retry budget counts failed
       receives only, repeated block re-triggers the ACK).
-    What is NOT proved: liveness under SEVERAL faults within the retry budget (the property's
-    general clause) and in duplicate-packets mode.  For those the safety theorem holds, the
-    finite enumeration [C04_single_fault_small] (independent of the round induction) stands, and
-    the W-PAIR co-simulation suite decides seeded multi-fault schedules against the real workers. *)
+    - it is LIVE under ANY NUMBER of lost DATA datagrams no two of which are within two windows
+      of datagrams of each other ([C04_spaced_data_losses_complete]) and under any number of lost
+      ACKs no two of which are within one window ([C04_spaced_ack_losses_complete]): every window
+      is then hit at most once, each loss costs one time-out, the retry counter starts afresh.
+    What is NOT proved: liveness under faults that fall closer together than that (up to the
+    retry budget: the property's general clause), mixed schedules, and duplicate-packets mode with
+    faults.  For those the safety theorem holds, the finite enumeration [C04_single_fault_small]
+    (independent of the round induction) stands, and the W-PAIR co-simulation suite decides seeded
+    multi-fault schedules against the real workers. *)
+From Coq Require Import Lia.
 From Tftp Require Import Base.Prelude Model.Types Model.Consts Model.Codec Model.Window Model.Worker Model.Spec
   Model.Server Model.Net Proofs.CodecP Proofs.SpecP Proofs.WindowP Proofs.SendP Proofs.RecvP Proofs.NetP
   Proofs.CosimP Proofs.CosimLive.
@@ -145,6 +151,30 @@ Theorem C04_one_reordered_ack_completes : forall sc rc F,
     (s_phase (p_s p) = SDone OutOk \/ ch_n (p_rs p) = i + 1).
 Proof. exact cosim_ack_hold. Qed.
 
+(** Any number of losses in one direction, spaced so that no window (nor its retransmission) is
+    hit twice. *)
+Theorem C04_spaced_data_losses_complete : forall sc rc F,
+  wf_params (s_blk sc) (s_ws sc) -> r_blk rc = s_blk sc -> r_ws rc = s_ws sc -> s_check sc = false ->
+  s_fails sc = [] -> r_fails rc = [] -> s_rep sc = 1 -> r_rep rc = 1 -> 0 < s_tmo sc ->
+  forall is, spaced (2 * s_ws sc) 0 is -> exists fuel,
+    let f := map (fun i => (i, NfDrop)) is in
+    let p := pair_run sc rc f [] fuel (pair_init sc rc f F) in
+    r_phase (p_r p) = RDone OutOk /\ written_bytes (w_file (r_w (p_r p))) = F /\ s_phase (p_s p) = SDone OutOk.
+Proof. exact cosim_data_drops. Qed.
+Theorem C04_spaced_ack_losses_complete : forall sc rc F,
+  wf_params (s_blk sc) (s_ws sc) -> r_blk rc = s_blk sc -> r_ws rc = s_ws sc -> s_check sc = false ->
+  s_fails sc = [] -> r_fails rc = [] -> s_rep sc = 1 -> r_rep rc = 1 -> 0 < s_tmo sc ->
+  forall is, spaced (s_ws sc) 0 is -> exists fuel,
+    let f := map (fun i => (i, NfDrop)) is in
+    let p := pair_run sc rc [] f fuel (pair_init sc rc [] F) in
+    r_phase (p_r p) = RDone OutOk /\ written_bytes (w_file (r_w (p_r p))) = F /\
+    (s_phase (p_s p) = SDone OutOk \/ In (ch_n (p_rs p) - 1) is).
+Proof. exact cosim_ack_drops. Qed.
+
+(** Non-vacuity of the spacing premise: losses of the datagrams 3, 30 and 70 with window size 8. *)
+Example C04_ex_spaced : spaced (2 * 8) 0 [3; 30; 70].
+Proof. cbn [spaced]. repeat split; lia. Qed.
+
 (** The closed-system statement for every kind of single fault of the network model (delivered,
     lost, repeated, held back), either direction, every position, every file, block size and
     window size: the receiving side completes and keeps its file. *)
@@ -173,6 +203,8 @@ Print Assumptions C04_one_repeated_ack_completes.
 Print Assumptions C04_one_reordered_data_completes.
 Print Assumptions C04_one_reordered_ack_completes.
 Print Assumptions C04_single_fault.
+Print Assumptions C04_spaced_data_losses_complete.
+Print Assumptions C04_spaced_ack_losses_complete.
 Print Assumptions C04_download_completes.
 Print Assumptions C04_upload_completes.
 Print Assumptions C04_single_fault_small.
